@@ -23,8 +23,9 @@ TRUSTED = [
     "size_t arithmetic on Nat: left+right < 2^64 (count < 2^63); heap sort: count < 2^31-1 (beyond that "
     "muggle_heap_init refuses the capacity and the routine returns false)",
     "allocation failure is outside this property (C18)",
-    "the model is the code WITH fixes/C10-heap-remove-last-slot.patch and fixes/C10-sort-count-zero.patch applied; "
-    "the unpatched entry points are modelled as removeOrig / mergeSortOrig / quickSortOrig and proved to fail",
+    "the model is the code WITH fixes/C10-heap-remove-last-slot.patch and fixes/C10-sort-count-zero.patch "
+    "(in /repo as cb68d3b and 1420afa); the unpatched entry points are modelled as removeOrig / mergeSortOrig / "
+    "quickSortOrig and proved to fail, and on a tree without the fixes the check reports the crashes with replays",
 ]
 
 
